@@ -7,7 +7,7 @@ use crate::engine::{self, first_diff, new_tera, observe_guarded, Config, Obs, Pr
 use crate::gen;
 use crate::gen::Delims;
 use crate::rng::{Fnv, Rng};
-use crate::sval::{unhex, SCtx};
+use crate::sval::{unhex, SCtx, SVal};
 use ahash::sim::Mode;
 use serde::{Deserialize, Serialize};
 use std::cell::RefCell;
@@ -47,6 +47,9 @@ pub enum Op {
     /// register the simulator's filter / function / test / escape function on an instance that
     /// was created without them (directly, or through `register_from` another instance)
     RegisterCustom { via_from: bool },
+    /// change the engine's global context between renders: insert (or overwrite) a key, remove
+    /// one (`val` = None), or merge through `Context::extend`
+    SetGlobal { key: String, val: Option<SVal>, via_extend: bool },
     /// continue on a clone; the original must stay exactly as it was
     CloneSwap,
     /// take a clone, set it aside and continue on the original; the clone must stay as it was
@@ -71,6 +74,7 @@ impl Op {
             Op::SetDelimsLate { .. } => "set_delims_late",
             Op::SetPrefixesLate { .. } => "set_prefixes_late",
             Op::RegisterCustom { .. } => "register_custom",
+            Op::SetGlobal { .. } => "set_global_context",
             Op::CloneSwap => "clone",
             Op::CloneKeep => "clone_keep",
             Op::Restart => "restart",
@@ -373,6 +377,12 @@ fn resulting(m: &Model, op: &Op) -> Option<Model> {
         Op::SetDelimsLate { delims } => r.config.delims = delims.clone(),
         Op::SetPrefixesLate { prefixes } => r.config.prefixes = prefixes.clone(),
         Op::RegisterCustom { .. } => r.config.custom = true,
+        Op::SetGlobal { key, val, .. } => {
+            r.config.global.0.retain(|(k, _)| k != key);
+            if let Some(v) = val {
+                r.config.global.0.push((key.clone(), v.clone()));
+            }
+        }
         _ => return None,
     }
     Some(r)
@@ -441,6 +451,20 @@ pub fn execute(sc: &RegScenario, stats: &mut Stats) -> Outcome {
             Op::SetPrefixesLate { prefixes } => catch(|| t.set_fallback_prefixes(prefixes.clone())),
             Op::RegisterCustom { via_from } => catch(|| {
                 engine::register_custom(&mut t, *via_from);
+                Ok(())
+            }),
+            Op::SetGlobal { key, val, via_extend } => catch(|| {
+                match val {
+                    None => {
+                        t.global_context().remove(key);
+                    }
+                    Some(v) if *via_extend => {
+                        let mut c = tera::Context::new();
+                        c.insert_value(key.clone(), v.to_value());
+                        t.global_context().extend(c);
+                    }
+                    Some(v) => t.global_context().insert_value(key.clone(), v.to_value()),
+                }
                 Ok(())
             }),
             Op::CloneSwap => {
@@ -604,7 +628,7 @@ pub fn execute(sc: &RegScenario, stats: &mut Stats) -> Outcome {
         // ---- model transition
         let mut next_model: Option<Model> = None;
         match op {
-            Op::AddRaw { .. } | Op::AddBatch { .. } | Op::AutoescapeOn { .. } | Op::SetDelimsLate { .. } | Op::SetPrefixesLate { .. } | Op::RegisterCustom { .. } => {
+            Op::AddRaw { .. } | Op::AddBatch { .. } | Op::AutoescapeOn { .. } | Op::SetDelimsLate { .. } | Op::SetPrefixesLate { .. } | Op::RegisterCustom { .. } | Op::SetGlobal { .. } => {
                 next_model = resulting(&model, op);
             }
             Op::AddFile { path, name, .. } => {
